@@ -1,2 +1,38 @@
-From TV Require Import Base.
-Example C13_placeholder : True. Proof. exact I. Qed.
+(* C13 -- start-up order does not matter.
+   (a) the bus: a participant that subscribes late is replayed the whole backlog of its topics,
+       exactly once and in order, and from then on receives everything (Proofs/BusP.v);
+   (b) replay safety: when the backlog is replayed inside subscribe(), everything the handler uses
+       already exists -- checked against the start-up sequences extracted from the current source;
+   (c) an interrupt published before the scheduler came up is a wakeup at the initial time
+       (Model/Sim.v [simulate_full]'s pre-wakeups), compared with the real schedulers for every
+       start-delay vector by the correspondence run.  Kafka's own replay is the broker's and is
+       not modelled.  Property theorems only. *)
+From TV Require Import Base Gen.SourceConsts Model.Bus Model.Startup Proofs.BusP.
+
+(* (a) whatever was published before, subscribing delivers exactly the topic's log, once, in
+   order; nothing of other topics; the invariant then keeps holding for every later message *)
+Theorem C13_replay_complete :
+  forall (h : handler) (N : positive) (fuel : nat),
+    wf_handler h N -> (Pos.to_nat N < fuel)%nat ->
+    forall ts b c, Inv_all b -> NoDup ts -> (forall t, In t ts -> ~ In c (subs_of b t)) ->
+      let b' := subscribe h fuel b c ts in
+      forall t, In t ts -> recv_on b' c t = log_of b' t.
+Proof.
+  intros h N fuel Hwf Hf ts b c Hinv Hnd Hnot b' t Ht.
+  destruct (subscribe_spec h N Hwf fuel Hf ts b c Hinv Hnd Hnot) as [Hi Hs].
+  destruct (Hi t) as [_ Hc]. apply Hc. apply Hs. left. exact Ht.
+Qed.
+
+(* (b) with the start-up order of the current source, the handler of every participant finds
+   what it needs when the backlog is replayed *)
+Theorem C13_replay_safe :
+  replay_safe component_needs component_start = true /\
+  replay_safe scheduler_needs scheduler_start = true /\
+  replay_safe master_needs master_start = true.
+Proof. vm_compute. repeat split; reflexivity. Qed.
+
+(* the pinned tree's order was unsafe *)
+Theorem C13_pinned_refuted :
+  replay_safe component_needs component_start_pinned = false /\
+  replay_safe master_needs master_start_pinned = false.
+Proof. vm_compute. split; reflexivity. Qed.
